@@ -27,6 +27,7 @@ import (
 	"github.com/relab/hotstuff/internal/proto/clientpb"
 	"github.com/relab/hotstuff/internal/verif/hx"
 	"github.com/relab/hotstuff/protocol/leaderrotation"
+	"github.com/relab/hotstuff/protocol/synchronizer"
 	"github.com/relab/hotstuff/security/crypto"
 )
 
@@ -56,6 +57,11 @@ type attacker struct {
 	// first, is set aside, and is taken up again when some other proposal has been handled; the replica then fetches the block.
 	refFirst bool
 	lastProp map[hotstuff.ID]*hotstuff.Block // the last proposal shown to each replica
+	// Fast-HotStuff (aggregate timeout rule): plain QCs move nobody's view, so views are pumped with timeout certificates only;
+	// aggs = the genuine aggregate QCs the adversary has assembled per view (op "A"), aggOf = the one attached to a proposal (op "PA")
+	aggMode bool
+	aggs    map[hotstuff.View]hotstuff.AggregateQC
+	aggOf   map[[2]int]*hotstuff.AggregateQC
 }
 
 func num(x any) int { return int(x.(float64)) }
@@ -121,7 +127,7 @@ func (a *attacker) bestCert() (hotstuff.SyncInfo, int) {
 		return keys[i][0] > keys[j][0] || (keys[i][0] == keys[j][0] && keys[i][1] < keys[j][1])
 	})
 	for _, k := range keys {
-		if k[0] == 0 {
+		if k[0] == 0 || a.aggMode {
 			continue
 		}
 		if qc, ok := a.qcFor(a.blk[k]); ok {
@@ -220,6 +226,59 @@ func (a *attacker) propose(v, k int, parent [2]int) bool {
 	return true
 }
 
+// aggregate: the honest replicas ids are brought into view v and their view timers fire there; from their genuine timeout messages
+// and the adversary's own (correctly self-signed, claiming the genesis QC as its highest) the adversary assembles the timeout
+// certificate and the aggregate QC of view v exactly as the synchronizer's RemoteTimeoutRule does
+func (a *attacker) aggregate(v int, ids []int) bool {
+	r := a.r
+	view := hotstuff.View(v)
+	for _, id := range ids {
+		x := r.node(hotstuff.ID(id))
+		if !a.pump(x, v, 0) {
+			return false
+		}
+		if int(x.VS.View()) != v {
+			a.note = append(a.note, fmt.Sprintf("aggregate: replica %d is in view %d, not %d", id, x.VS.View(), v))
+			return false
+		}
+		if _, done := a.tmo[view][x.ID]; !done {
+			r.step("timeout", x, obj{"type": "localtimeout", "view": int(x.VS.View())}, func() { x.FireTimeout() })
+			a.flush()
+		}
+	}
+	byz := r.node(a.byz)
+	ruler := synchronizer.NewTimeoutRuler(byz.Cfg, byz.Auth)
+	own, err := ruler.LocalTimeoutRule(view, hotstuff.NewSyncInfoWith(hotstuff.NewQuorumCert(nil, 0, hotstuff.GetGenesis().Hash())))
+	if err != nil {
+		a.note = append(a.note, "aggregate: own timeout: "+err.Error())
+		return false
+	}
+	tmos := []hotstuff.TimeoutMsg{*own}
+	for _, id := range ids {
+		if t, ok := a.tmo[view][hotstuff.ID(id)]; ok {
+			tmos = append(tmos, t)
+		}
+	}
+	if len(tmos) < r.q {
+		a.note = append(a.note, fmt.Sprintf("aggregate: only %d timeout messages for view %d", len(tmos), v))
+		return false
+	}
+	si, err := ruler.RemoteTimeoutRule(view, view, tmos)
+	if err != nil {
+		a.note = append(a.note, "aggregate: "+err.Error())
+		return false
+	}
+	tc, _ := si.TC()
+	agg, ok := si.AggQC()
+	if !ok {
+		a.note = append(a.note, "aggregate: no aggregate QC")
+		return false
+	}
+	a.tcs[view] = tc
+	a.aggs[view] = agg
+	return true
+}
+
 // deliver the proposal <<v,k>> to honest replica id; reports whether the replica voted for it
 func (a *attacker) vote(id, v, k int) (voted bool, ok bool) {
 	r := a.r
@@ -240,7 +299,7 @@ func (a *attacker) vote(id, v, k int) (voted bool, ok bool) {
 	}
 	a.lastProp[x.ID] = b
 	s0 := len(x.Signed)
-	a.send("propose", x, hotstuff.ProposeMsg{ID: a.byz, Block: b})
+	a.send("propose", x, hotstuff.ProposeMsg{ID: a.byz, Block: b, AggregateQC: a.aggOf[[2]int{v, k}]})
 	for _, s := range x.Signed[s0:] {
 		if string(s.Msg) == string(b.ToBytes()) {
 			voted = true
@@ -355,7 +414,7 @@ func attackCmd(args []string) error {
 
 func playScript(o *ndjson, sc abScript, seed int64, refFirst bool) (obj, error) {
 	const n = 4
-	rs := map[string]string{"chained": "chainedhotstuff", "simple": "simplehotstuff"}[sc.Rs]
+	rs := map[string]string{"chained": "chainedhotstuff", "simple": "simplehotstuff", "fast": "fasthotstuff"}[sc.Rs]
 	if rs == "" {
 		return nil, fmt.Errorf("unknown ruleset %q", sc.Rs)
 	}
@@ -381,14 +440,18 @@ func playScript(o *ndjson, sc abScript, seed int64, refFirst bool) (obj, error) 
 	for i := range leaders {
 		leaders[i] = int(byzID)
 	}
-	o.emit(obj{"op": "init", "n": n, "f": 1, "q": r.q, "rs": rs, "byz": []int{int(byzID)}, "leaders": leaders, "lmode": "fixed", "agg": false,
+	o.emit(obj{"op": "init", "n": n, "f": 1, "q": r.q, "rs": rs, "byz": []int{int(byzID)}, "leaders": leaders, "lmode": "fixed", "agg": rs == "fasthotstuff",
 		"crashOnly": false, "chain": nodes[0].Rules.ChainLength(), "script": obj{"job": sc.Job, "idx": sc.Idx, "kind": sc.Kind, "weak": sc.Weak}})
 	for _, x := range r.honest() {
 		x := x
 		r.step("start", x, obj{"type": "start"}, func() { x.Start() })
 	}
 	a := &attacker{r: r, byz: byzID, blk: map[[2]int]*hotstuff.Block{{0, 0}: hotstuff.GetGenesis()}, tmo: map[hotstuff.View]map[hotstuff.ID]hotstuff.TimeoutMsg{},
-		tcs: map[hotstuff.View]hotstuff.TimeoutCert{}, refFirst: refFirst, lastProp: map[hotstuff.ID]*hotstuff.Block{}}
+		tcs: map[hotstuff.View]hotstuff.TimeoutCert{}, refFirst: refFirst, lastProp: map[hotstuff.ID]*hotstuff.Block{},
+		aggMode: rs == "fasthotstuff", aggs: map[hotstuff.View]hotstuff.AggregateQC{}, aggOf: map[[2]int]*hotstuff.AggregateQC{}}
+	if a.aggMode {
+		a.refFirst = false
+	}
 	a.flush()
 	status, at := "completed", -1
 	// the fault-free prefix: one chain, everybody votes
@@ -418,6 +481,22 @@ func playScript(o *ndjson, sc abScript, seed int64, refFirst bool) (obj, error) 
 					status, at = "unrealisable", i-nPrefix
 					return
 				}
+			case "A": // ["A", view, replica, replica, ...]
+				var ids []int
+				for _, x := range op[2:] {
+					ids = append(ids, num(x))
+				}
+				if !a.aggregate(num(op[1]), ids) {
+					status, at = "unrealisable", i-nPrefix
+					return
+				}
+			case "PA": // ["PA", v, k, parent v, parent k, view of the aggregate QC]: a proposal that carries an aggregate QC
+				agg, have := a.aggs[hotstuff.View(num(op[5]))]
+				if !have || !a.propose(num(op[1]), num(op[2]), [2]int{num(op[3]), num(op[4])}) {
+					status, at = "unrealisable", i-nPrefix
+					return
+				}
+				a.aggOf[[2]int{num(op[1]), num(op[2])}] = &agg
 			case "V":
 				voted, ok := a.vote(num(op[1]), num(op[2]), num(op[3]))
 				if !ok {
